@@ -63,7 +63,7 @@ PROPS["C10"] = dict(
 
 PROPS["C06"] = dict(
     modules=["Proofs.C06"],
-    theorems=['Goflow.C06.templateKey_injective', 'Goflow.C06.store_refines', 'Goflow.C06.latest_wins', 'Goflow.C06.isolation', 'Goflow.C06.addTemplates_other', 'Goflow.C06.unknown_template', 'Goflow.C06.exporter_isolation'],
+    theorems=['Goflow.C06.templateKey_injective', 'Goflow.C06.store_refines', 'Goflow.C06.latest_wins', 'Goflow.C06.isolation', 'Goflow.C06.addTemplates_other', 'Goflow.C06.unknown_template', 'Goflow.C06.exporter_isolation', 'Goflow.C06.templateKey_source'],
     generators=[dict(name="C06", quick=40, thorough=3000)],
     harness=["impl"],
     level_text="Theorems: the template store refines a map keyed by (version, domain, id) per exporter; latest announcement wins; announcements never affect another key or exporter. Histories (re-announcements, broken-tail datagrams, foreign ids) are the tie.",
@@ -88,7 +88,7 @@ PROPS["C09"] = dict(
 
 PROPS["C11"] = dict(
     modules=["Proofs.C11"],
-    theorems=['Goflow.C11.rates_refine', 'Goflow.C11.rate_zero_before_any', 'Goflow.C11.rate_of_message', 'Goflow.C11.rate_isolation', 'Goflow.C11.search_order', 'Goflow.C11.v5_rate'],
+    theorems=['Goflow.C11.rates_refine', 'Goflow.C11.rate_zero_before_any', 'Goflow.C11.rate_of_message', 'Goflow.C11.rate_isolation', 'Goflow.C11.search_order', 'Goflow.C11.v5_rate', 'Goflow.C11.samplingKey_source'],
     generators=[dict(name="C11", quick=40, thorough=3000)],
     harness=["impl"],
     level_text="Theorems: rates_refine (the sampling state is a map keyed by version and domain per exporter address), rate_of_message, rate_isolation, search_order (305, 50, 34; reduced-size encodings), v5_rate. Histories with a reference map are the tie.",
